@@ -8,6 +8,7 @@ CONSTANTS
   MaxCons = 1
   VKinds = {"slice", "bytesbuf", "bufpool"}
   AsIs = {}
+  Prefer = {"pool"}
 INVARIANT Inv
 PROPERTY ActionProps
 CHECK_DEADLOCK FALSE
